@@ -184,6 +184,21 @@ def work(unit, rec):
             u, v = sh.vor_div_to_uv_nodal(g, vor_in, div_in, clip=clip)
             vor, div = sh.uv_nodal_to_vor_div_modal(g, u, v, clip=clip)
             res[(which, clip)] = (mat(vor), mat(div))
+            # each half on its own (the composition cancels any common factor, e.g. a stale radius picked up from a
+            # compilation cache keyed on the grid): the nodal wind must be the synthesis of the (separately checked)
+            # cos-lat vector divided by cos(lat); vorticity/divergence of a nodal wind must be curl/div of wind/cos(lat)
+            Uc, Vc = sh.get_cos_lat_vector(vor_in, div_in, g, clip=clip)
+            cl = np.asarray(g.cos_lat)
+            wu, wv = np.asarray(g.to_nodal(Uc)) / cl, np.asarray(g.to_nodal(Vc)) / cl
+            sgh = {'clip': clip, 'input': which}
+            rec.close(np.asarray(u), wu, scale=max(float(np.abs(wu).max()), float(np.abs(wv).max()), 1e-300), site='vor_div_to_uv_nodal_is_synthesis_of_cos_lat_vector', key=key, sig=sgh)
+            rec.close(np.asarray(v), wv, scale=max(float(np.abs(wu).max()), float(np.abs(wv).max()), 1e-300), site='vor_div_to_uv_nodal_is_synthesis_of_cos_lat_vector', key=key, sig=sgh)
+            uo, vo = g.to_modal(jnp.asarray(wu / cl)), g.to_modal(jnp.asarray(wv / cl))
+            wvor, wdiv = np.asarray(g.curl_cos_lat((uo, vo), clip=clip)), np.asarray(g.div_cos_lat((uo, vo), clip=clip))
+            gvor, gdiv = sh.uv_nodal_to_vor_div_modal(g, jnp.asarray(wu), jnp.asarray(wv), clip=clip)
+            sc_ = max(float(np.abs(wvor).max()), float(np.abs(wdiv).max()), 1e-300)
+            rec.close(np.asarray(gvor), wvor, scale=sc_, site='uv_nodal_to_vor_div_modal_is_curl_div_of_wind_over_cos_lat', key=key, sig=sgh)
+            rec.close(np.asarray(gdiv), wdiv, scale=sc_, site='uv_nodal_to_vor_div_modal_is_curl_div_of_wind_over_cos_lat', key=key, sig=sgh)
         rec.case(key, transitions=8 * int(in_mask.sum()), outcome=res[('vorticity', True)][0].tobytes())
         if resolves:
           for clip in (True, False):
